@@ -173,6 +173,20 @@ func (g *Generator) generateInt64FieldMarshal(gf *protogen.GeneratedFile, field 
 	if field.Desc.IsList() {
 		// Handle repeated int64 fields
 		g.generateRepeatedInt64FieldMarshal(gf, fieldName, jsonName)
+	} else if field.Desc.HasOptionalKeyword() {
+		// A proto3 optional field is a pointer: present (even when zero) or absent
+		gf.P("// Convert optional ", fieldName, " from string to number")
+		gf.P("if x.", fieldName, " != nil {")
+		gf.P(`raw["`, jsonName, `"], _ = json.Marshal(*x.`, fieldName, `)`)
+		gf.P("}")
+		gf.P()
+	} else if field.Oneof != nil {
+		// A oneof member lives in its wrapper type: present (even when zero) when it is the selected member
+		gf.P("// Convert oneof member ", fieldName, " from string to number")
+		gf.P("if member, ok := x.Get", field.Oneof.GoName, "().(*", field.GoIdent, "); ok {")
+		gf.P(`raw["`, jsonName, `"], _ = json.Marshal(member.`, fieldName, `)`)
+		gf.P("}")
+		gf.P()
 	} else {
 		// Handle singular int64 field
 		g.generateSingularInt64FieldMarshal(gf, fieldName, jsonName)
